@@ -52,6 +52,34 @@ CHECKS = {
              "rename, make_instr, set_precision, set_memory, set_window and parallelize_loop are applied to the corpus; TLC checks the "
              "stated relation between source and result on all bounded inputs in real-number (mode F) semantics.",
         note="Trusted: TLC, the relation construction in harness/utilunits.py (fixing arguments, permuting cells)."),
+    "C03": dict(level=MC, design="6/C03",
+        technique="TLA+ ExoMachine Safe invariant (trap conditions transcribing the property) model-checked by TLC on front-end-accepted programs",
+        text="Exo source texts generated from 14 templates with offsets, extents, guards, assertions and call arguments drawn around "
+             "the accept/reject boundary are submitted to the real @proc; every accepted program (and every corpus procedure) is "
+             "run by TLC on all bounded inputs and must never trap: out-of-bounds access or window, violated callee assertion, "
+             "non-positive size, shape mismatch, aliased call arguments, negative trip count.",
+        note="Trusted: TLC, projection, bounded inputs (sizes 1..3 and literal neighbourhoods, index arguments -2..3)."),
+    "C05": dict(level=MC, design="6/C05",
+        technique="TLA+ ExoMachine/ExoEquiv with call-site traps (Precond, NonPosSize, ShapeMismatch, AliasedArgs) model-checked by TLC on replace edges",
+        text="replace/replace_all are tried on every statement and block of 14 kernels against 9 callees/instructions with window, "
+             "size, index, bool and scalar arguments and range/stride assertions; for every success TLC checks that the new call "
+             "(executing the callee's Exo body) has exactly the effect of the replaced statements, that callee assertions, sizes, "
+             "shapes and aliasing hold at the call site, and that inlining the call again is equivalent.",
+        note="Trusted: TLC, projection, bounded inputs."),
+    "C08": dict(level=MC, design="6/C08",
+        technique="TLA+ ExoMachine HeapOK monitor on the IR emitted by the real MemoryAnalysis + ExoCTrace validation of sanitizer-instrumented C runs",
+        text="(1) The IR after the four backend analyses (with Free statements) is exported and run by TLC: no access or window after "
+             "free (also through window aliases), no double free, no leak at scope exit, on all bounded inputs. (2) The compiled C, "
+             "built with ASan/UBSan/LSan and -Werror=discarded-qualifiers, is executed on the same inputs; abort and "
+             "const-violation events are not behaviours of the trace specification.",
+        note="Trusted: TLC, gcc sanitizers, harness/analyzed.py (re-runs the backend analyses per procedure as the compiler does); "
+             "signed overflow only as far as UBSan sees it on small inputs."),
+    "C09": dict(level=MC, design="6/C09",
+        technique="TLA+ ExoMachine RaceFree monitor (per-iteration read/write/reduce location sets) model-checked by TLC on procedures the backend compiles",
+        text="Procedures with par loops (written so at every depth, under if and in callees; and parallelize_loop applied to every loop "
+             "and loop pair of the corpora) that the real backend compiles are run by TLC on all bounded inputs; at the end of every "
+             "iteration of every parallel loop instance the iteration's write/reduce set must be disjoint from all other iterations' accesses.",
+        note="Trusted: TLC, projection; access sets are collected in sequential order; OpenMP runtime not executed."),
 }
 
 NOT_YET = {}
